@@ -33,6 +33,7 @@ META = {
 }
 META["explanation"] += '  runtext/*: the same multi-chromosome run through the real read_graph from GFA text, with the line order (link lines first, each link before the segment line of its second end, alternating) and a rotation of the S lines chosen by the solver; the chromosomes include one that is a single segment and one that is a single bubble.'
 META["explanation"] += '  chain-numeric-ids/*: plain numeric segment ids; chain-ids-from-source/*: segment ids taken from the string constants of order_gfa.py and gfa.py as they are at run time.'
+META["explanation"] += '  chain-adjacent-scaffolds/*: two scaffold nodes next to each other (a reference boundary without a variant); a sixth chromosome of that kind in run/*; the chain replay also checks the counter decompose_and_order hands back.'
 
 
 def templates(tier):
@@ -73,6 +74,10 @@ def harnesses(tier):
         kinds, tips = ((["snp", "ins", "two"], [True, True]), (["del", "snp", "tri"], [True, False]), (["two", "snp"], [False, True]))[j % 3]
         hs.append({"id": "chain-ids-from-source/%d" % k, "params": {"kind": "chain", "kinds": kinds, "tips": tips, "variants": [0, 3], "naming": 5,
                                                                     "name_pos": k, "hashseed": j % 3}, "timeout": 600})
+    # two scaffold nodes next to each other in the chain (reference segment boundary without a variant)
+    for ks, tips in ((["snp", "ref", "snp"], (True, True)), (["ref", "ins"], (False, True)), (["del", "ref", "ref", "two"], (True, False))):
+        hs.append({"id": "chain-adjacent-scaffolds/%s/t%d%d" % ("-".join(ks), tips[0], tips[1]),
+                   "params": {"kind": "chain", "kinds": ks, "tips": list(tips), "variants": [0, 1, 2, 3], "naming": 0, "hashseed": len(ks) % 3}, "timeout": 600})
     # chains with fewer than two articulation points
     for ks, tips in ((["snp"], (False, False)), (["ins"], (False, False)), (["snp", "del"], (False, False)), (["tri"], (True, False)),
                      (["inv"], (False, True)), (["snp", "ins"], (False, False))):
@@ -80,7 +85,7 @@ def harnesses(tier):
             hs.append({"id": "fewartic/%s/t%d%d/h%d" % ("-".join(ks), tips[0], tips[1], seed),
                        "params": {"kind": "chain", "kinds": ks, "tips": list(tips), "variants": [0, 1, 2, 3], "naming": 0, "hashseed": seed},
                        "timeout": 400})
-    for order in (["chr1", "chr2"], ["chr2", "chr1"], ["chr2", "chr3", "chr1"], ["chr4", "chr1"], ["chr2", "chr4", "chr3"], ["chr5", "chr2"], ["chr1", "chr5", "chr4"]):
+    for order in (["chr1", "chr2"], ["chr2", "chr1"], ["chr2", "chr3", "chr1"], ["chr4", "chr1"], ["chr2", "chr4", "chr3"], ["chr5", "chr2"], ["chr1", "chr5", "chr4"], ["chr6", "chr2"]):
         for seed in (0, 1):
             hs.append({"id": "run/%s/h%d" % (",".join(order), seed), "params": {"kind": "run", "order": order, "hashseed": seed}, "timeout": 900})
     # the same through the real read_graph, from GFA text in several line orders (link lines before the segment lines they name)
@@ -168,7 +173,8 @@ def build(params):
         F.build_chain(spec, c, kinds[c], tip_start=(c != "chr2"), tip_end=True, naming=0)
     F.build_chain(spec, "chr4", [], tip_start=False, tip_end=False, naming=0)  # a single segment
     F.build_chain(spec, "chr5", ["snp"], tip_start=False, tip_end=False, naming=0)  # the whole chromosome is one bubble
-    ALLC = ("chr1", "chr2", "chr3", "chr4", "chr5")
+    F.build_chain(spec, "chr6", ["snp", "ref", "inv"], tip_start=True, tip_end=True, naming=0)  # two scaffold nodes next to each other
+    ALLC = ("chr1", "chr2", "chr3", "chr4", "chr5", "chr6")
     nrefs = {c: F.n_refs(spec, c) for c in ALLC}
     args = []
     pre = []
@@ -181,7 +187,7 @@ def build(params):
         # of the S lines
         pre = ["%s == %d" % (n, 1 + i % 4) for i, (n, _) in enumerate(args)]
         args += [("lo", "int"), ("rot", "int")]
-        pre.append("1 <= lo <= 3 and 0 <= rot <= 6")
+        pre.append("1 <= lo <= 3 and 0 <= rot <= 8")
     nlen = sum(nrefs.values())
 
     def case(*a):
@@ -190,7 +196,7 @@ def build(params):
         if params.get("text"):
             lo_sel = 1 if a[nlen] == 1 else (2 if a[nlen] == 2 else 3)
             rot_sel = 0
-            for r_ in range(7):
+            for r_ in range(9):
                 if a[nlen + 1] == r_:
                     rot_sel = r_
             a = [1 + i % 4 for i in range(nlen)]
@@ -340,6 +346,18 @@ def replay(params, model, wd):
                 oc = F.chain_elements(spec, "chr1")
                 return {"reproduced": True, "key": "C06:order-dependent:artic%d" % len(oc[1]), "what": "tags differ between line orders: %r vs %r" % (results[0], other),
                         "files": files}
+        # the counter handed back for the next chromosome is not visible in a single-chromosome run: ask the function itself
+        import gaftools.gfa as G
+
+        g = G.GFA(os.path.join(wd, "in%d.gfa" % params["variants"][0]))
+        bo0 = a[nref + 1]
+        res = O.decompose_and_order(g, set(g.nodes.keys()), "chr1", bo0)
+        if res[2] is not None:
+            top = max(int(b) for b, _ in res[2].values())
+            low = min(int(b) for b, _ in res[2].values())
+            if not (low >= bo0 and res[3] > top):
+                return {"reproduced": True, "key": "C06:counter", "what": "decompose_and_order(bo_start=%d) handed out BO %d..%d and returned %r as the next free value" % (
+                    bo0, low, top, res[3]), "files": files}
         return {"reproduced": False, "detail": "real order_gfa output satisfies the chain rules for all line orders"}
     order = params["order"]
     kinds = {"chr1": ["snp", "del"], "chr2": ["inv"], "chr3": ["ins", "two"]}
@@ -348,9 +366,10 @@ def replay(params, model, wd):
         F.build_chain(spec, c, kinds[c], tip_start=(c != "chr2"), tip_end=True, naming=0)
     F.build_chain(spec, "chr4", [], tip_start=False, tip_end=False, naming=0)
     F.build_chain(spec, "chr5", ["snp"], tip_start=False, tip_end=False, naming=0)
+    F.build_chain(spec, "chr6", ["snp", "ref", "inv"], tip_start=True, tip_end=True, naming=0)
     so = {}
     pos = 0
-    for c in ("chr1", "chr2", "chr3", "chr4", "chr5"):
+    for c in ("chr1", "chr2", "chr3", "chr4", "chr5", "chr6"):
         n = F.n_refs(spec, c)
         so.update(F.so_layout(spec, c, a[pos:pos + n], 0))
         pos += n
